@@ -155,4 +155,4 @@ func vxScriptQ(n int, onlyOne bool) {
 func VxC12_Script2()  { vxScript(2) }
 func VxC12_Script2q() { vxScriptQ(2, true) }
 func VxC12_Script3q() { vxScriptQ(3, true) }
-func VxC12_Script3() { vxScript(3) }
+func VxC12_Script3()  { vxScript(3) }
